@@ -1,5 +1,7 @@
 /- C11 invariants, part 4: object ids in use are allocated; read locks = deferred RUnlocks; RW exclusion -/
 import SemaModel.C11.Inv3
+set_option linter.unusedSimpArgs false
+set_option linter.unusedVariables false
 namespace Sema.C11
 
 def exValid : PC → Bool
